@@ -790,6 +790,10 @@ def r07_7(ctx):
         for eps in (F(1, 10 ** 6), F(1, 10 ** 9), F(1, 10 ** 12)):
             scenarios.append((f"{N} queries of length 1/200, then one of length {float(eps):g}", [F(1, 200)] * N + [eps]))
     scenarios.append(("101 queries of length 1e-6 (a genuinely fine solve)", [F(1, 10 ** 6)] * 101))
+    # zero-length queries (bm(t, t) is a valid query) must not drive the statistics to zero: a refinement down to length 0
+    # never ends
+    scenarios.append(("120 zero-length queries", [F(0)] * 120))
+    scenarios.append(("one query of length 1/100, then 150 zero-length queries", [F(1, 100)] + [F(0)] * 150))
     scenarios.append(("101 queries of length 1/200, then 120 of length 1e-9 (the mean halves only gradually)",
                       [F(1, 200)] * 101 + [F(1, 10 ** 9)] * 120))
     n_requests = 0
@@ -847,13 +851,18 @@ def r07_7(ctx):
                 if x is None:
                     raise AnalysisError("refinement length is not a number in a concrete scenario", where=astq.loc(call))
                 mean = total / (i + 1)
-                if x * 4 < mean and worst is None:
+                if (x * 4 < mean or x <= 0) and worst is None:
                     worst = (i + 1, x, mean)
         construct = f"{call.key}::R07.7::{label}"
         if worst is None:
             rep.ok("R07.7", astq.loc(call), construct, f"{len(requests)} refinement request(s), all >= mean query length / 4")
         else:
             i, x, mean = worst
+            if x <= 0:
+                rep.fail("R07.7", astq.loc(call), construct,
+                         f"{label}: query no. {i} asks for the dependency tree to be refined down to length {float(x):g}: the "
+                         f"refinement splits nodes until they are that short, i.e. for ever (the query never returns)")
+                continue
             rep.fail("R07.7", astq.loc(call), construct,
                      f"{label}: query no. {i} asks for the dependency tree to be refined down to {float(x):g} while the mean "
                      f"query length so far is {float(mean):g}: that single call leaves about {float(1 / (36 * x)):.3g} tree nodes "
